@@ -53,6 +53,53 @@ def load_variants() -> List[dict]:
     return out
 
 
+def rename_locals(src: str, qual: str) -> Optional[str]:
+    """Behaviour-preserving refactor used by the silent variants: every local variable of function `qual` ('f' or 'Class.f')
+    that is neither a parameter (of it or of a nested function / lambda / comprehension-free scope) nor declared global is
+    renamed to <name>_r; the whole module is re-emitted with ast.unparse (so comments and layout change as well)."""
+    import ast
+    tree = ast.parse(src)
+    parts = qual.split(".")
+    scope = tree
+    target = None
+    for i, pname in enumerate(parts):
+        found = None
+        for n in ast.walk(scope) if i == 0 else ast.iter_child_nodes(scope):
+            if isinstance(n, (ast.FunctionDef, ast.ClassDef)) and n.name == pname:
+                found = n
+                break
+        if found is None:
+            return None
+        scope = found
+        target = found
+    if not isinstance(target, ast.FunctionDef):
+        return None
+    params = set()
+    for n in ast.walk(target):
+        if isinstance(n, (ast.FunctionDef, ast.Lambda)):
+            a = n.args
+            for x in a.posonlyargs + a.args + a.kwonlyargs + ([a.vararg] if a.vararg else []) + ([a.kwarg] if a.kwarg else []):
+                params.add(x.arg)
+        if isinstance(n, (ast.Global, ast.Nonlocal)):
+            params.update(n.names)
+        if isinstance(n, (ast.FunctionDef, ast.ClassDef)) and n is not target:
+            params.add(n.name)
+        if isinstance(n, (ast.Import, ast.ImportFrom)):
+            for al in n.names:
+                params.add((al.asname or al.name).split(".")[0])
+        if isinstance(n, ast.ExceptHandler) and n.name:
+            params.add(n.name)
+    stored = {n.id for n in ast.walk(target) if isinstance(n, ast.Name) and isinstance(n.ctx, (ast.Store, ast.Del))}
+    # keyword arguments and attribute names are not Name nodes, so renaming Name nodes cannot touch them
+    ren = {n: n + "_r" for n in stored - params if not n.startswith("__")}
+    if not ren:
+        return None
+    for n in ast.walk(target):
+        if isinstance(n, ast.Name) and n.id in ren:
+            n.id = ren[n.id]
+    return ast.unparse(tree) + "\n"
+
+
 def _apply(variant: dict, root: str) -> Optional[str]:
     """Apply the edits to the copy at root; returns a reason string when the variant must be skipped."""
     if variant.get("patch"):
@@ -60,6 +107,20 @@ def _apply(variant: dict, root: str) -> Optional[str]:
                            capture_output=True, text=True)
         if r.returncode != 0:
             return "patch does not apply: " + (r.stdout + r.stderr).strip().splitlines()[0][:120]
+        return None
+    if variant.get("transform"):
+        kind, rel, qual = variant["transform"]
+        path = os.path.join(root, rel)
+        if not os.path.exists(path):
+            return f"file {rel} absent"
+        with open(path, encoding="utf-8") as f:
+            src = f.read()
+        out = rename_locals(src, qual)
+        if out is None:
+            return f"function {qual} not found in {rel}"
+        compile(out, path, "exec")
+        with open(path, "w", encoding="utf-8") as f:
+            f.write(out)
         return None
     for rel, old, new in variant["edits"]:
         path = os.path.join(root, rel)
